@@ -198,7 +198,7 @@ func (pConn *PFCPConn) Serve() {
 				logger.PfcpLog.Errorf("failed to set read timeout: %v", err)
 			}
 
-			n, err := pConn.Read(recvBuf)
+			n, rAddr, err := pConn.readFromPeer(recvBuf)
 			if err != nil {
 				if netErr, ok := err.(net.Error); ok && netErr.Timeout() {
 					logger.PfcpLog.Infof("read timeout for connection %v<->%v, is the SMF still alive?",
@@ -212,6 +212,15 @@ func (pConn *PFCPConn) Serve() {
 					return
 				}
 
+				continue
+			}
+
+			// The socket shares its local address with the listening socket and the sockets
+			// of the other peers (SO_REUSEPORT). Between bind() and connect() it is part of
+			// that group, so the kernel may have queued the datagram of another, new peer on
+			// it. Such a datagram must not be handled (and answered) as if it came from ours.
+			if rAddr != nil && rAddr.String() != pConn.RemoteAddr().String() {
+				logger.PfcpLog.Warnf("drop packet of %v received on the connection to %v", rAddr, pConn.RemoteAddr())
 				continue
 			}
 
@@ -235,6 +244,17 @@ func (pConn *PFCPConn) Serve() {
 			return
 		}
 	}
+}
+
+// readFromPeer reads the next datagram and, if the socket can tell, where it came from.
+func (pConn *PFCPConn) readFromPeer(b []byte) (int, net.Addr, error) {
+	if pc, ok := pConn.Conn.(net.PacketConn); ok {
+		return pc.ReadFrom(b)
+	}
+
+	n, err := pConn.Read(b)
+
+	return n, nil, err
 }
 
 // Shutdown stops connection backing PFCPConn.
